@@ -152,6 +152,6 @@ contract(
            2: dict(inv=epv_inv(ALL, lambda L_, n: L_.i), mods=EPV_MODS),
            3: dict(inv=epv_inv(ALL, ALL), mods=EPV_MODS), 4: dict(inv=epv_inv(ALL, ALL), mods=EPV_MODS), 5: dict(inv=epv_inv(ALL, ALL), mods=EPV_MODS),
            6: dict(inv=epv_inv(ALL, ALL), mods=EPV_MODS)},
-    local_types={'point1': 'Point', 'point2': 'Point', 'sub_expression': None},
+    local_types={'point1': 'Point', 'point2': 'Point', 10: 'Point', 11: 'Point'},
 )
 REG.by_key[PP_ + '_eval_points_and_function_values'].no_runtime = 'numpy linear algebra; the bounded instance checks after real solves (C02 gram / combination) are the run-time counterpart'
